@@ -60,6 +60,64 @@ def random_history(rng, obj, nops, target_bits):
     return jobs
 
 
+def growth_schedules(chk):
+    """capacity schedules of the implementation's growth rule with the real constants, computed by TLC from BitListImpl.tla"""
+    d = vlib.stage_specs(os.path.join(chk.work, "growth"))
+    res = vlib.tlc(d, "MC_BitListGrowth.tla", "MC_BitListGrowth.cfg", workers=1, timeout=300)
+    if not res.ok:
+        raise vlib.Inconclusive("spec error: MC_BitListGrowth\n" + res.out[-1500:])
+    out = [json.loads(m.group(1).replace('\\"', '"')) for m in re.finditer(r'<<"SCHEDULE", "(.*)">>', res.out)]
+    chk.cov["states"] += res.distinct
+    chk.cov["transitions"] += res.generated
+    return out
+
+
+def boundary_histories(rng, scheds, quick, first_obj):
+    """operation sequences that straddle every capacity boundary (bit index = end of the backing slice) the model predicts"""
+    jobs, obj = [], first_obj
+    for sc in scheds:
+        n0 = sc["n0"]
+        if quick and n0 not in (0, 33, 4097):
+            continue
+        for cap in sc["caps"][:4 if quick else 6]:
+            B = cap * 32
+            for r in ([1, 9, 31] if quick else [1, 2, 7, 8, 9, 16, 24, 31]):
+                for kind in ("AddBits", "AddByte", "AddBit"):
+                    obj += 1
+                    h = [dict(op="bl", obj=obj, call="New", a=[n0], full=False, hist=obj)]
+                    need = B - r - n0
+                    if need < 0:
+                        continue
+                    h.append(dict(op="bl", obj=obj, call="AddByteN", a=[rng.choice([0xA5, 0xFF, 0x3C]), need // 8], full=False, hist=obj))
+                    if need % 8:
+                        h.append(dict(op="bl", obj=obj, call="AddBit", a=[rng.randint(0, 1) for _ in range(need % 8)], full=False, hist=obj))
+                    if kind == "AddBits":
+                        k = min(31, r + rng.randint(1, 12))
+                        h.append(dict(op="bl", obj=obj, call="AddBits", a=[rng.randint(2 ** (k - 1), 2 ** k - 1), k], full=False, hist=obj))
+                    elif kind == "AddByte":
+                        h.append(dict(op="bl", obj=obj, call="AddByte", a=[rng.choice([0xFF, 0x81, 0xA5])], full=False, hist=obj))
+                        h.append(dict(op="bl", obj=obj, call="AddByte", a=[0xFF], full=False, hist=obj))
+                        h.append(dict(op="bl", obj=obj, call="AddByte", a=[0xFF], full=False, hist=obj))
+                        h.append(dict(op="bl", obj=obj, call="AddByte", a=[0xFF], full=False, hist=obj))
+                    else:
+                        h.append(dict(op="bl", obj=obj, call="AddBit", a=[1] * (r + 3), full=False, hist=obj))
+                    length = B - r + (min(31, r + 12) if False else 0)
+                    length = n0 + (need // 8) * 8 + (need % 8)
+                    for x in h:
+                        if x["call"] == "AddBits":
+                            length += x["a"][1]
+                        elif x["call"] == "AddByte":
+                            length += 8
+                        elif x["call"] == "AddBit" and x is h[-1]:
+                            length += len(x["a"])
+                    for idx in (B - r - 1, B - r, B - 1, B, B + 1):
+                        if 0 <= idx < length:
+                            h.append(dict(op="bl", obj=obj, call="GetBit", a=[idx], full=False, hist=obj))
+                    h.append(dict(op="bl", obj=obj, call=rng.choice(["GetBytes", "IterateBytes"]), a=[], full=False, hist=obj))
+                    jobs += h
+    return jobs
+
+
 def key_of(ev, why):
     return "bitlist call=%s why=%s" % (ev.get("call"), why)
 
@@ -82,6 +140,10 @@ def run(tier):
     for h in range(nh):
         target = [5000, 40000, 70000, 140000][h % 4] if not quick else [3000, 9000, 40000, 140000][h % 4]
         jobs += random_history(chk.rng, 100000 + h, 120 if quick else 250, target)
+    scheds = growth_schedules(chk)
+    bj = boundary_histories(chk.rng, scheds, quick, 200000)
+    jobs += bj
+    chk.cov["growth_boundary_histories"] = len({j["hist"] for j in bj})
     evs = vlib.run_drive(drive, jobs, chk.work)
     shards = vlib.shard(evs, 8 if quick else 16, key=lambda e: e["hist"])
     acc, bad, st, tr = vlib.validate_traces(chk.work, "TraceBitList", "TraceBitList.cfg", shards, timeout=3000)
@@ -104,6 +166,8 @@ def run(tier):
     chk.sample(dict(event=short(evs[-1])))
     # a bad entry is the real object's own answer disagreeing with the spec on a call inside the domain: reproduce alone
     for b in bad[:50]:
+        if b["why"] in ("outside-domain-or-unknown-call", "unknown-event"):
+            raise vlib.Inconclusive("generator produced a call outside the property's domain: %r" % {k: v for k, v in b["event"].items() if k != "res"})
         hist = [j for j in jobs if j["hist"] == b["event"]["hist"]]
         sub = vlib.run_drive(drive, hist, chk.work, name="repro")
         a2, bad2, _, _ = vlib.validate_traces(chk.work, "TraceBitList", "TraceBitList.cfg", [sub])
